@@ -905,3 +905,377 @@ def c02_r6_guard_ownership(ctx):
     f = ctx.fn(TT + '::deallocate_read_transaction')
     if f is not None:
         ctx.held(f, ctx.sites(f, 'BTreeMap::get_mut', exact=1), 'self.state')
+
+
+# ------------------------------------------------------------------------------------ C03
+TTSTATE = ['self.state', 'ty:State']
+
+
+def c03_r1_write_slot(ctx):
+    ctx.set_rule('C03.R1', 'single write slot: acquired under the tracker lock, only when free; released with a wake-up')
+    f = ctx.fn(TT + '::start_write_transaction')
+    if f is not None:
+        st = ctx.stores(f, 'live_write_transaction', owner='State')
+        ctx.guarded(f, st, [Guard(place='live_write_transaction', vals={'None'})], 'slot taken only when it is free')
+        w = ctx.sites(f, 'Condvar::wait', exact=1)
+        ctx.guarded(f, w, [Guard(place='live_write_transaction', vals={'Some'})], 'waits while the slot is taken')
+        inc = ctx.sites(f, 'TransactionId::increment', exact=1)
+        ctx.held(f, st + inc, TTSTATE)
+        ctx.order(f, inc, st)
+        for s_ in st:
+            rv = s_.fn.blocks[s_.bb]['s'][s_.idx][2]
+            okk = False
+            if rv['k'] == 'use':
+                okk = core.flows_from_call(f, rv['o'], 'TransactionId::increment')
+            elif rv['k'] == 'agg':
+                okk = any(core.flows_from_call(f, o, 'TransactionId::increment') for o in rv['o'])
+            ctx.check(okk, 'flow|%s|slot-id' % f.path, 'the slot holds the freshly incremented transaction id', f, s_.line)
+        ctx.sites(f, 'Mutex::lock', exact=1)
+    f = ctx.fn(TT + '::end_write_transaction')
+    if f is not None:
+        st = ctx.stores(f, 'live_write_transaction', owner='State')
+        no = ctx.sites(f, 'Condvar::notify_one', exact=1)
+        tk = ctx.sites(f, 'Option::take', exact=1)
+        ctx.held(f, st + no + tk, TTSTATE)
+        ctx.must_pass(f, no, exits='any', what='ending the write transaction always wakes a waiter')
+        ctx.sites(f, 'Mutex::lock', exact=1)
+        ctx.order(f, st, no)
+    ctx.callers_eq(TT + '::start_write_transaction', {'begin_write_with_allocation_policy'})
+    ctx.callers_eq(TT + '::end_write_transaction', {'<TransactionGuard as Drop>::drop'})
+    # stores to the slot are confined to the two functions
+    own = set()
+    for f_ in ctx.facts.fn_list:
+        for b in f_.blocks:
+            for s_ in b['s']:
+                if s_[0] == 'a' and s_[1][1] and s_[1][1][-1] == '.live_write_transaction':
+                    own.add(ctx.facts.root_of(f_).path)
+    exp = {TT + '::start_write_transaction', TT + '::end_write_transaction'}
+    for p in sorted(own):
+        ctx.check(any(core.name_matches(e, core.alt_names(p)) for e in exp), 'new-writer|live_write_transaction|%s' % p, '`%s` stores to State.live_write_transaction' % p)
+
+
+def c03_r2_slot_before_roots(ctx):
+    ctx.set_rule('C03.R2', 'write slot acquired and failure re-checked before the transaction captures its roots')
+    f = ctx.fn('begin_write_with_allocation_policy')
+    if f is None:
+        return
+    sw = ctx.sites(f, TT + '::start_write_transaction', exact=1)
+    nw = ctx.sites(f, WT + '::new', exact=1)
+    ci = ctx.sites(f, TM + '::check_io_errors', exact=2)
+    ctx.order(f, sw, nw, 'slot before WriteTransaction::new')
+    ctx.guarded(f, nw, [true_of(TM + '::allocator_state_loaded')], 'no write transaction without an allocator state')
+    ctx.guarded(f, sw, [ok(TM + '::check_io_errors')], 'no slot after an I/O failure')
+    if sw:
+        edges = core.guard_edges(f, [ok(TM + '::check_io_errors')])
+        r = core.reach(f, start=(sw[0].bb, sw[0].idx), cut_edges=edges)
+        hit = bool(nw) and nw[0].bb in r['term']
+        ctx._ob(not hit, ctx.sample('guard', f, sw[0].line, 'after acquiring the slot, WriteTransaction::new only through a second check_io_errors Ok edge'))
+        if hit:
+            ctx.violate('guard|%s|recheck-io' % f.path, 'WriteTransaction::new reachable after start_write_transaction without re-checking check_io_errors', f, nw[0].line)
+    g = ctx.fn(WT + '::new')
+    if g is not None:
+        ctx.sites(g, TM + '::get_data_root', exact=1)
+        ctx.sites(g, TM + '::get_system_root', exact=1)
+    ctx.callers_eq(WT + '::new', {'begin_write_with_allocation_policy'})
+    ctx.callers_eq('begin_write_with_allocation_policy', {'Database::begin_write', 'ensure_allocator_state_table_and_trim'})
+
+
+def c03_r3_publication_owners(ctx):
+    ctx.set_rule('C03.R3', 'root publication: frozen owners, under the state lock')
+    ctx.callers_eq('DatabaseHeader::write_secondary_slot', {TM + '::commit', TM + '::non_durable_commit'})
+    ctx.callers_eq('DatabaseHeader::swap_primary_slot', {TM + '::commit', TM + '::repair_primary_corrupted', 'UnrepairedDatabaseHeader::select_primary_slot'})
+    for field, exp in (('header', {TM + '::commit', TM + '::clear_cache_and_reload'}),
+                       ('read_from_secondary', {TM + '::commit', TM + '::non_durable_commit', TM + '::clear_cache_and_reload'}),
+                       ('allocators', {TM + '::clear_cache_and_reload', TM + '::reset_allocator_state', TM + '::invalidate_allocator_state', TM + '::load_allocator_state'})):
+        own = {}
+        for f_ in ctx.facts.fn_list:
+            for i, b in enumerate(f_.blocks):
+                for j, s_ in enumerate(b['s']):
+                    if s_[0] == 'a' and s_[1][1] and s_[1][1][-1] == '.' + field and len(s_) > 4 and s_[4] and s_[4].endswith('InMemoryState'):
+                        own.setdefault(ctx.facts.root_of(f_).path, []).append(Point(f_, i, j, 'store InMemoryState.' + field, s_[3]))
+        matched = set()
+        for p, pts in sorted(own.items()):
+            hit = [e for e in exp if core.name_matches(e, core.alt_names(p))]
+            ctx._ob(bool(hit), ctx.sample('store-owner', pts[0].fn, pts[0].line, '%s stores InMemoryState.%s' % (p, field)))
+            matched.update(hit)
+            if not hit:
+                ctx.violate('new-writer|InMemoryState.%s|%s' % (field, p), '`%s` stores to InMemoryState.%s (confirmed writers: %s)' % (p, field, sorted(exp)), pts[0].fn, pts[0].line)
+            else:
+                f_ = pts[0].fn
+                # under the lock, or through &mut self (exclusive)
+                excl = f_.d.get('params', [''])[0].startswith('&mut ')
+                if not excl:
+                    held_at_stores(ctx, f_, pts, 'self.state')
+        for e in exp:
+            ctx.check(e in matched, 'lost-writer|InMemoryState.%s|%s' % (field, e), 'confirmed writer %s of InMemoryState.%s still exists' % (e, field))
+
+
+def c03_r4_no_publish_on_abort(ctx):
+    ctx.set_rule('C03.R4', 'abort / drop / poisoned commit cannot publish')
+    ctx.no_reach([WT + '::abort_inner', WT + '::abort', '<WriteTransaction as Drop>::drop'], [TM + '::commit', TM + '::non_durable_commit', WT + '::commit_inner', WT + '::durable_commit'])
+    f = ctx.fn(WT + '::commit')
+    if f is not None:
+        ci = ctx.sites(f, WT + '::commit_inner', exact=1)
+        ab = ctx.sites(f, WT + '::abort_inner', exact=1)
+        ctx.guarded(f, ci, [false_of(WT + '::is_poisoned')], 'commit_inner only when not poisoned')
+        ctx.guarded(f, ab, [true_of(WT + '::is_poisoned')], 'rollback on the poisoned arm')
+        e_false = core.guard_edges(f, [false_of(WT + '::is_poisoned')])
+        ctx.must_pass(f, ab, exits='any', extra_cut_edges=e_false, what='a poisoned commit always rolls back')
+        # the poisoned arm cannot return Ok: success exits there = none
+        r = core.reach(f, cut_edges=e_false, cut_blocks=core.error_blocks(f))
+        okk = not any(rb in r['term'] for rb in f.ret_blocks())
+        ctx.check(okk, 'must-pass|%s|poisoned-returns-err' % f.path, 'the poisoned arm of commit() never returns Ok', f, f.line)
+        st = ctx.stores(f, 'completed', owner='WriteTransaction', value=True)
+        ctx.order(f, st, ci + ab, 'completed flag set first (Drop will not roll back again)')
+    ctx.callers_eq(WT + '::commit_inner', {WT + '::commit'})
+    ctx.callers_eq(WT + '::commit_inner_helper', {WT + '::commit_inner'})
+    ctx.callers_eq(WT + '::durable_commit', {WT + '::commit_inner_helper'})
+    ctx.callers_eq(WT + '::non_durable_commit', {WT + '::commit_inner_helper'})
+    g = ctx.fn(WT + '::is_poisoned')
+    if g is not None:
+        ctx.atomic_sites(g, 'load', 'self.poisoned', exact=1)
+    g = ctx.fn(WT + '::poison')
+    if g is not None:
+        ctx.atomic_sites(g, 'store', 'self.poisoned', exact=1, value=True)
+    # nobody un-poisons
+    bad = []
+    for f_ in ctx.facts.fn_list:
+        S_ = core.sym(f_)
+        for c in f_.calls_to('Atomic::store'):
+            d = S_.describe(S_.operand(c.t['a'][0])) if c.t['a'] else ''
+            if d.endswith('.poisoned') and 'WriteTransaction' in (f_.d.get('self_ty') or f_.path):
+                a = c.t['a'][1]
+                if not (a[0] == 'k' and a[2] is True):
+                    bad.append((f_, c))
+    ctx.check(not bad, 'unpoison', 'no store of a non-true value to WriteTransaction.poisoned', bad[0][0] if bad else None, bad[0][1].line if bad else None)
+
+
+def c03_r6_deferred_close(ctx):
+    ctx.set_rule('C03.R6', 'deferred close handoff is atomic with the write slot')
+    f = ctx.fn(TT + '::defer_close_if_write_transaction_live')
+    if f is not None:
+        st = ctx.stores(f, 'deferred_close', owner='State')
+        ctx.guarded(f, st, [Guard(place='live_write_transaction', vals={'Some'})], 'close deferred only while a write transaction is live')
+        ctx.held(f, st, TTSTATE)
+        ctx.sites(f, 'Mutex::lock', exact=1)
+        # returns true exactly on that arm: `_0 = const true` only behind the Some edge
+        rets = []
+        for i, b in enumerate(f.blocks):
+            for j, s_ in enumerate(b['s']):
+                if s_[0] == 'a' and s_[1][0] == 0 and not s_[1][1] and s_[2]['k'] == 'use' and s_[2]['o'][0] == 'k' and s_[2]['o'][2] is True:
+                    rets.append(Point(f, i, j, 'return true', s_[3]))
+        ctx.guarded(f, rets, [Guard(place='live_write_transaction', vals={'Some'})], 'returns true only when the close was handed over')
+        ctx.check(len(rets) >= 1, 'floor|%s|return-true' % f.path, 'a `true` return exists', f, f.line)
+    g = ctx.fn('<Database as Drop>::drop')
+    if g is not None:
+        cd = ctx.sites(g, 'close_database', exact=1)
+        ctx.guarded(g, cd, [false_of(TT + '::defer_close_if_write_transaction_live')], 'Database::drop closes only if no write transaction took the close over')
+        e_true = core.guard_edges(g, [true_of(TT + '::defer_close_if_write_transaction_live')])
+        ctx.must_pass(g, cd, exits='any', extra_cut_edges=e_true, what='without a live write transaction Database::drop always closes')
+    g = ctx.fn('<TransactionGuard as Drop>::drop')
+    if g is not None:
+        cd = ctx.sites(g, 'close_database', exact=1)
+        ctx.guarded(g, cd, [Guard(call=TT + '::end_write_transaction', vals={'Some'})], 'the write guard closes only when the close was deferred to it')
+        e_none = core.guard_edges(g, [Guard(call=TT + '::end_write_transaction', vals={'None'})])
+        ew = ctx.sites(g, TT + '::end_write_transaction', exact=1)
+        ctx.must_pass(g, cd, start=ew[0] if ew else None, exits='any', extra_cut_edges=e_none, what='a deferred close is always performed')
+    ctx.callers_eq(TT + '::defer_close_if_write_transaction_live', {'<Database as Drop>::drop'})
+
+
+# ------------------------------------------------------------------------------------ C05
+def c05_r1_abort_path(ctx):
+    ctx.set_rule('C05.R1', 'abort path completeness and order')
+    f = ctx.fn(WT + '::abort_inner_impl')
+    if f is not None:
+        a = ctx.sites(f, 'TableTreeMut::clear_root_updates_and_close', exact=1)
+        b = ctx.sites(f, 'SavepointTransactionState::apply_on_abort', exact=1)
+        c = ctx.sites(f, PA + '::rollback_all', exact=1)
+        ctx.order(f, a, b)
+        ctx.order(f, b, c)
+        for x in (a, b, c):
+            ctx.must_pass(f, x, what='every successful abort passes %s' % (x[0].desc if x else '?'))
+    f = ctx.fn(PA + '::rollback_all')
+    if f is not None:
+        tk = ctx.sites(f, PA + '::take_allocated_since_commit', exact=1)
+        fr = ctx.sites(f, TM + '::free', exact=1)
+        ctx.must_pass(f, tk, exits='any')
+        for p in fr:
+            ctx.flows(f, p, 1, from_call=PA + '::take_allocated_since_commit', what='rollback frees the drained allocations')
+    ctx.set_rule('C05.R2', 'leak latch around the rollback')
+    f = ctx.fn(WT + '::abort_inner')
+    if f is not None:
+        mk = ctx.sites(f, TM + '::mark_needs_repair', exact=1)
+        im = ctx.sites(f, WT + '::abort_inner_impl', exact=1)
+        cl = ctx.sites(f, TM + '::clear_needs_repair', exact=1)
+        ctx.order(f, mk, im, 'leak latched before the rollback starts')
+        ctx.guarded(f, cl, [ok(WT + '::abort_inner_impl')], 'latch cleared only after a complete rollback')
+        ctx.guarded(f, cl, [false_of(TM + '::needs_repair')], 'latch cleared only if it was not set before')
+        nr = ctx.sites(f, TM + '::needs_repair', exact=1)
+        ctx.order(f, nr, mk, 'previous latch state read before it is set')
+    ctx.set_rule('C05.R3', 'every allocation is recorded for rollback')
+    for nm, callee in ((PA + '::allocate', [TM + '::allocate', TM + '::allocate_lowest']), (PA + '::allocate_lowest', [TM + '::allocate_lowest'])):
+        f = ctx.fn(nm)
+        if f is not None:
+            al = ctx.sites(f, callee, floor=1)
+            ins = ctx.sites(f, 'UncommittedPages::insert', exact=1)
+            for a in al:
+                ctx.must_pass(f, ins, start=a, what='every success path after the allocation records the page in allocated_since_commit')
+            for p in ins:
+                ctx.flows(f, p, 1, from_call=callee)
+    f = ctx.fn(PA + '::adopt_unpersisted')
+    if f is not None:
+        cu = ctx.sites(f, TM + '::claim_unpersisted', exact=1)
+        ins = ctx.sites(f, 'UncommittedPages::insert', exact=1)
+        ctx.guarded(f, ins, [true_of(TM + '::claim_unpersisted')], 'adopted only when claimed from the unpersisted set')
+    ctx.callers_eq('UncommittedPages::insert', {PA + '::allocate', PA + '::allocate_lowest', PA + '::adopt_unpersisted'})
+    ctx.callers_eq('UncommittedPages::take_all', {PA + '::take_allocated_since_commit'})
+    ctx.callers_eq(PA + '::take_allocated_since_commit', {PA + '::rollback_all', WT + '::durable_commit', WT + '::non_durable_commit', WT + '::process_data_freed_pages_after_commit'})
+
+
+def c05_r4_poison(ctx):
+    ctx.set_rule('C05.R4', 'partial failure poisons the transaction')
+    n = 0
+    f = ctx.fn(WT + '::restore_savepoint')
+    if f is not None:
+        po = ctx.sites(f, WT + '::poison', exact=1)
+        ri = ctx.sites(f, WT + '::restore_savepoint_inner', exact=1)
+        ctx.guarded(f, po, [err(WT + '::restore_savepoint_inner')])
+        e_ok = core.guard_edges(f, [ok(WT + '::restore_savepoint_inner')])
+        ctx.must_pass(f, po, start=ri[0] if ri else None, exits='any', extra_cut_edges=e_ok, what='a failed restore always poisons')
+        n += 1
+    for nm, inner in (('rename_table', 'inner_rename'), ('rename_multimap_table', 'inner_rename'), ('delete_table', 'inner_delete'), ('delete_multimap_table', 'inner_delete')):
+        f = ctx.fn('TableNamespace::' + nm)
+        if f is None:
+            continue
+        po = ctx.sites(f, WT + '::poison', exact=1)
+        ic = ctx.sites(f, 'TableNamespace::' + inner, exact=1)
+        ctx.guarded(f, po, [err('TableNamespace::' + inner)])
+        # on Err(Storage) the poison is not skippable: cut the Ok edge and every non-Storage edge
+        e_skip = core.guard_edges(f, [ok('TableNamespace::' + inner)])
+        storage_other = set()
+        for bb in range(f.nb):
+            if f.blocks[bb]['t']['k'] != 'sw':
+                continue
+            for si, fs in enumerate(core.edge_facts(f, bb)):
+                for fa in fs:
+                    if fa.kind == 'call' and fa.call.matches('TableNamespace::' + inner) and 'Storage' not in fa.vals and fa.vals and not (fa.vals & {'Ok', 'Err'}):
+                        storage_other.add((bb, si))
+        # the discriminant of the error payload: place fact `call:inner@Err.0` in variants
+        for bb in range(f.nb):
+            if f.blocks[bb]['t']['k'] != 'sw':
+                continue
+            for si, fs in enumerate(core.edge_facts(f, bb)):
+                for fa in fs:
+                    if fa.kind == 'place' and '@Err.0' in fa.desc and fa.vals and 'Storage' not in fa.vals:
+                        storage_other.add((bb, si))
+        ctx.must_pass(f, po, start=ic[0] if ic else None, exits='any', extra_cut_edges=e_skip | storage_other, what='a storage error in %s always poisons' % nm)
+        n += 1
+    f = ctx.fn('Table::retain_in_bounds')
+    if f is not None:
+        pg = ctx.sites(f, 'RetainPanicGuard::new', exact=1)
+        rb = ctx.sites(f, 'BtreeMut::retain_in_bounds', exact=1)
+        po = ctx.sites(f, WT + '::poison', exact=1)
+        ctx.order(f, pg, rb, 'panic guard armed before the predicate can run')
+        ctx.guarded(f, po, [Guard(place='poisoned', vals={'true'})])
+        e_f = core.guard_edges(f, [Guard(place='poisoned', vals={'false'})])
+        ctx.must_pass(f, po, start=rb[0] if rb else None, exits='any', extra_cut_edges=e_f, what='a half-applied retain always poisons')
+        n += 1
+    f = ctx.fn('<RetainPanicGuard as Drop>::drop')
+    if f is not None:
+        po = ctx.sites(f, WT + '::poison', exact=1)
+        ctx.guarded(f, po, [true_of('panicking')])
+        e_skip = core.guard_edges(f, [false_of('panicking'), Guard(place='self.disarmed', vals={'true'})])
+        ctx.must_pass(f, po, exits='any', extra_cut_edges=e_skip, what='an armed guard dropped while panicking always poisons')
+        n += 1
+    f = ctx.fn('<ExtractIf as Drop>::drop')
+    if f is not None:
+        po = ctx.sites(f, WT + '::poison', exact=1)
+        ctx.guarded(f, po, [true_of('BtreeExtractIf::close_failed'), true_of('BtreeExtractIf::predicate_panicked')])
+        n += 1
+    if ctx.cfg == 'A' or ctx.has_fn('table::CursorMut::finish'):
+        for nm, gs in (('latch_error', [true_of('BtreeCursorMut::poisoned')]), ('finish', [err('BtreeCursorMut::finish'), true_of('BtreeCursorMut::poisoned')])):
+            fs = [x for x in ctx.facts.find_fns('CursorMut::' + nm) if x.file.endswith('table.rs')]
+            if len(fs) == 1:
+                po = ctx.sites(fs[0], WT + '::poison', exact=1)
+                ctx.guarded(fs[0], po, gs)
+                n += 1
+    ctx.check(n >= 7, 'floor|poison-sites', 'at least 7 poison-on-partial-failure instances were analysed (found %d)' % n)
+    ctx.set_rule('C05.R5', 'a poisoned transaction stages nothing')
+    f = ctx.fn(WT + '::close_table')
+    if f is not None:
+        ct = ctx.sites(f, 'TableNamespace::close_table', exact=1)
+        cw = ctx.sites(f, 'TableNamespace::close_table_without_update', exact=1)
+        ctx.guarded(f, ct, [false_of(WT + '::is_poisoned')], 'table root staged only when not poisoned')
+        ctx.guarded(f, cw, [true_of(WT + '::is_poisoned')])
+
+
+def c05_r6_drop(ctx):
+    ctx.set_rule('C05.R6', 'Drop of an uncompleted write transaction')
+    f = ctx.fn('<WriteTransaction as Drop>::drop')
+    if f is None:
+        return
+    ab = ctx.sites(f, WT + '::abort_inner', exact=1)
+    ctx.guarded(f, ab, [Guard(place='self.completed', vals={'false'})], 'no rollback of a completed transaction')
+    ctx.guarded(f, ab, [false_of('panicking')], 'no rollback while panicking')
+    ctx.guarded(f, ab, [false_of(TM + '::storage_failure')], 'no rollback I/O after a storage failure')
+    mk = ctx.sites(f, TM + '::mark_needs_repair', exact=1)
+    ctx.guarded(f, mk, [Guard(place='self.completed', vals={'false'})])
+    # on the !completed && no failure && !panicking path the rollback is not skippable
+    e_skip = core.guard_edges(f, [Guard(place='self.completed', vals={'true'}), true_of('panicking'), true_of(TM + '::storage_failure')])
+    ctx.must_pass(f, ab, exits='any', extra_cut_edges=e_skip, what='an abandoned transaction is always rolled back on drop')
+    # storage-failure arm: roots cleared, no rollback_all reachable without abort_inner
+    cr = ctx.sites(f, 'TableTreeMut::clear_root_updates_and_close', exact=1)
+    ctx.guarded(f, cr, [true_of(TM + '::storage_failure')])
+    ctx.no_direct(f, [PA + '::rollback_all', TM + '::free'], 'Drop frees nothing directly')
+
+
+def c05_r7_savepoint_symmetry(ctx):
+    ctx.set_rule('C05.R7', 'savepoint bookkeeping: abort releases created, keeps deleted; commit the reverse')
+    f = ctx.fn('SavepointTransactionState::apply_on_abort')
+    if f is not None:
+        ctx.sites(f, TT + '::deallocate_savepoint', exact=1)
+        ctx.no_direct(f, [TT + '::invalidate_savepoints'], 'abort never invalidates shared savepoints')
+        dl = ctx.sites(f, TT + '::deallocate_savepoint', exact=1)
+        for p in dl:
+            # the released ones are the created ones
+            S_ = core.sym(f)
+            ls, calls, args, consts = core.flow_sources(f, p.call.t['a'][1])
+            src = False
+            for bb in calls:
+                cs = core.CallSite(f, bb, f.blocks[bb]['t'])
+                if cs.matches('mem::take') and cs.t['a']:
+                    d = S_.describe(S_.operand(cs.t['a'][0]))
+                    if d.endswith('created_persistent'):
+                        src = True
+            ctx.check(src, 'flow|%s|created' % f.path, 'apply_on_abort releases exactly the savepoints created in this transaction (mem::take(created_persistent))', f, p.line)
+    f = ctx.fn('SavepointTransactionState::apply_on_commit')
+    if f is not None:
+        a = ctx.sites(f, TT + '::deallocate_savepoint', exact=1)
+        b = ctx.sites(f, TT + '::invalidate_savepoints', exact=1)
+        ctx.must_pass(f, b, exits='any', what='commit always applies the staged invalidations')
+    ctx.callers_eq('SavepointTransactionState::apply_on_commit', {WT + '::apply_savepoint_state_on_commit'})
+    ctx.callers_eq('SavepointTransactionState::apply_on_abort', {WT + '::abort_inner_impl'})
+    ctx.callers_eq(WT + '::apply_savepoint_state_on_commit', {WT + '::commit_inner_helper', WT + '::durable_commit'})
+    f = ctx.fn(WT + '::durable_commit')
+    if f is not None:
+        ap = ctx.sites(f, WT + '::apply_savepoint_state_on_commit', exact=1)
+        ctx.guarded(f, ap, [ok(TM + '::commit')], 'savepoint state applied only after the durable commit succeeded')
+        cm = ctx.sites(f, TM + '::commit', exact=1)
+        ctx.must_pass(f, ap, start=cm[0] if cm else None, what='every successful durable commit applies the savepoint state')
+    f = ctx.fn(WT + '::commit_inner_helper')
+    if f is not None:
+        ap = ctx.sites(f, WT + '::apply_savepoint_state_on_commit', exact=1)
+        ctx.guarded(f, ap, [ok(WT + '::non_durable_commit')], 'savepoint state applied only after the non-durable commit succeeded')
+    ctx.set_rule('C05.R8', 'restore staging is transaction-local')
+    own = set()
+    for f_ in ctx.facts.fn_list:
+        for b in f_.blocks:
+            for s_ in b['s']:
+                if s_[0] == 'a' and s_[1][1] and s_[1][1][-1] == '.restored_transaction':
+                    own.add(ctx.facts.root_of(f_).path)
+    ctx.check(own == {'transactions::WriteTransaction::restore_savepoint_inner'}, 'writers|restored_transaction', 'only restore_savepoint_inner stores WriteTransaction.restored_transaction (found %s)' % sorted(own))
+    ctx.callers_eq(TM + '::drop_unpersisted_data_freed_after', {WT + '::commit_inner_helper'})
+    f = ctx.fn(WT + '::commit_inner_helper')
+    if f is not None:
+        dr = ctx.sites(f, TM + '::drop_unpersisted_data_freed_after', exact=1)
+        ctx.guarded(f, dr, [Guard(place='self.restored_transaction', vals={'Some'})])
